@@ -27,6 +27,7 @@ Match(e) ==
     [] e.act = "relabel_one"  -> RelabelOne(e.args.d, e.args.i, e.args.v)
     [] e.act = "replace_axis" -> ReplaceAxisObject(e.args.d, e.args.labs)
     [] e.act = "append_axis"  -> AppendAxis(e.args.d, e.args.labs)
+    [] e.act \in {"copy", "cross_assign", "rename_axes_copy", "set_axis_copy", "rename_keys_copy"} -> Pure(e.act, e.args)
 
 Agrees == hist'[Len(hist')].ok = Ev.ok /\ Proj' = Ev.post
 TNext ==
